@@ -4,13 +4,15 @@ from /tmp/seed/<ID>-out into /verif/seeded/<ID>-<n>/ (patch.diff, demo_test.go, 
 import json, os, re, shutil, sys
 pid, n, pkg, run, vlog = sys.argv[1:6]
 extra = sys.argv[6] if len(sys.argv) > 6 else ""
-src = f"/tmp/seed/{pid}-out"
+# SRC / SRCN: deliverables of a later round live in another directory under their own number
+src = os.environ.get("SRC", f"/tmp/seed/{pid}-out")
+sn = os.environ.get("SRCN", n)
 dst = f"/verif/seeded/{pid}-{n}"
 os.makedirs(dst, exist_ok=True)
-shutil.copy(f"{src}/change{n}.diff", f"{dst}/patch.diff")
-shutil.copy(f"{src}/demo{n}_test.go", f"{dst}/demo_test.go")
-shutil.copy(f"{src}/change{n}.md", f"{dst}/notes.md")
-md = open(f"{src}/change{n}.md").read()
+shutil.copy(f"{src}/change{sn}.diff", f"{dst}/patch.diff")
+shutil.copy(f"{src}/demo{sn}_test.go", f"{dst}/demo_test.go")
+shutil.copy(f"{src}/change{sn}.md", f"{dst}/notes.md")
+md = open(f"{src}/change{sn}.md").read()
 title = md.strip().split("\n")[0].lstrip("# ").strip()
 def section(pat):
     m = re.search(r"^#+\s*[^\n]*(" + pat + r")[^\n]*\n(.*?)(?=^#+\s|\Z)", md, re.S | re.M | re.I)
